@@ -362,7 +362,7 @@ class C19(Property):
                             v = v[0]
                         if sp['key'] is not None:
                             k = sp['key'].encode('latin-1') if bm else sp['key']
-                            if k in mapping and mapping[k] != v:
+                            if k in mapping and (type(mapping[k]) is not type(v) or repr(mapping[k]) != repr(v)):   # (-0.0 == 0, True == 1)
                                 ctx.count('skipped_duplicate_key')
                                 return None
                             mapping[k] = v
